@@ -317,6 +317,9 @@ example : ∀ i, 7 ≤ i → (esI i).structural (σI i) = false := by
 
 example : (σI 7).phase ≠ .crashed := by decide
 
+/-- every job that died was reset: the split was only queued when mrp died, and the restart reset it -/
+example : AliveInv (σI 7) := aliveInv_of_check (by decide)
+
 theorem σI_finished (i : Nat) (h : hI.length ≤ i) : Finished (σI i) := by
   have : σI i = σI hI.length := by simp [σI, prefixState, List.take_of_length_le h]
   rw [this]
@@ -348,5 +351,85 @@ example : SameChoices (σI 18) (σU 13) := by decide
 example : (σI 18).dst ⟨0, 0, .split⟩ = (σU 13).dst ⟨0, 0, .split⟩ ∧
     (σI 18).dst ⟨0, 0, .join⟩ = some .complete ∧ (σI 18).dst ⟨0, 0, .chunk 0⟩ = none ∧
     launchCount (σI 18) ⟨0, 0, .split⟩ = 2 ∧ launchCount (σU 13) ⟨0, 0, .split⟩ = 1 := by decide
+
+/-! A larger pair: a stage, then a splitting stage with two forks (one disabled at run time) and two
+chunks; mrp is killed while chunk 1 is running and chunk 0 has finished unnoticed; chunk 1 dies
+with mrp, the restart resets it (and only it), the new incarnation reads chunk 0's `_complete`
+from the directory and re-runs chunk 1. -/
+def g2c : List NodeInfo := [{ kind := .stage, pre := [] }, { kind := .splitstage, pre := [0] }]
+
+def hPre : List Ev :=
+  [.fork 0 0, .fork 1 0, .fork 1 1, .nodestate 0 .running, .refresh,
+   .W ⟨0, 0, .split⟩ .complete, .mkchunks 0 0 1, .launch ⟨0, 0, .chunk 0⟩,
+   .joblog ⟨0, 0, .chunk 0⟩, .jobend ⟨0, 0, .chunk 0⟩ .complete, .R ⟨0, 0, .chunk 0⟩ .complete,
+   .W ⟨0, 0, .join⟩ .complete, .W ⟨0, 0, .fork⟩ .complete, .nodestate 0 .complete,
+   .nodestate 1 .running, .W ⟨1, 1, .fork⟩ .disabled,
+   .launch ⟨1, 0, .split⟩, .joblog ⟨1, 0, .split⟩, .jobend ⟨1, 0, .split⟩ .complete,
+   .R ⟨1, 0, .split⟩ .complete, .mkchunks 1 0 2, .launch ⟨1, 0, .chunk 0⟩, .launch ⟨1, 0, .chunk 1⟩,
+   .joblog ⟨1, 0, .chunk 0⟩, .joblog ⟨1, 0, .chunk 1⟩, .jobend ⟨1, 0, .chunk 0⟩ .complete]
+
+def hTail : List Ev :=
+  [.launch ⟨1, 0, .join⟩, .joblog ⟨1, 0, .join⟩, .jobend ⟨1, 0, .join⟩ .complete,
+   .R ⟨1, 0, .join⟩ .complete, .W ⟨1, 0, .fork⟩ .complete, .nodestate 1 .complete]
+
+def hI2 : List Ev :=
+  hPre ++ [.crash, .killed ⟨1, 0, .chunk 1⟩, .restart, .reset ⟨1, 0, .chunk 1⟩, .refresh,
+    .launch ⟨1, 0, .chunk 1⟩, .joblog ⟨1, 0, .chunk 1⟩, .jobend ⟨1, 0, .chunk 1⟩ .complete,
+    .R ⟨1, 0, .chunk 1⟩ .complete] ++ hTail
+
+def hU2 : List Ev :=
+  hPre ++ [.R ⟨1, 0, .chunk 0⟩ .complete, .jobend ⟨1, 0, .chunk 1⟩ .complete,
+    .R ⟨1, 0, .chunk 1⟩ .complete] ++ hTail
+
+def σI2 : Nat → State := prefixState (init g2c) hI2
+def esI2 : Nat → Ev := fun i => hI2.getD i .stepend
+def σU2 : Nat → State := prefixState (init g2c) hU2
+
+example : hI2.length = 41 ∧ hU2.length = 35 := by decide
+example : Acyclic g2c := topoSorted_acyclic (by decide)
+example : Run (init g2c) σI2 esI2 := run_of_list _ _ (by decide)
+example : Run (init g2c) σU2 (fun i => hU2.getD i .stepend) := run_of_list _ _ (by decide)
+example : ∀ i, (esI2 i).benign (σI2 i) = true := by
+  intro i
+  by_cases h : i < hI2.length
+  · revert i; decide
+  · have : hI2[i]? = none := by simp; omega
+    simp [esI2, List.getD, this, Ev.benign, Ev.failing]
+/-- the last interruption is the reset (index 29) -/
+example : ∀ i, 30 ≤ i → (esI2 i).structural (σI2 i) = false := by
+  intro i h1
+  by_cases h : i < hI2.length
+  · have : ∀ i, i < hI2.length → 30 ≤ i → (esI2 i).structural (σI2 i) = false := by decide
+    exact this i h h1
+  · have : hI2[i]? = none := by simp; omega
+    simp [esI2, List.getD, this, Ev.structural]
+example : (σI2 30).phase ≠ .crashed ∧ AliveInv (σI2 30) := ⟨by decide, aliveInv_of_check (by decide)⟩
+/-- without the reset the dead chunk would be left behind: `AliveInv` fails right after the restart -/
+example : ¬ AliveInv (σI2 29) := fun h =>
+  absurd (h 1 0 (.chunk 1) (by simp) (by decide) (by decide)) (by decide)
+/-- both end finished with the same choices and the same directory states; the interrupted run
+submitted chunk 1 twice and everything else once -/
+example : SameChoices (σI2 41) (σU2 35) := by decide
+example : (σI2 41).dst ⟨1, 0, .chunk 1⟩ = (σU2 35).dst ⟨1, 0, .chunk 1⟩ ∧
+    (σI2 41).dst ⟨1, 0, .join⟩ = some .complete ∧ (σI2 41).dst ⟨1, 1, .split⟩ = none ∧
+    launchCount (σI2 41) ⟨1, 0, .chunk 1⟩ = 2 ∧ launchCount (σI2 41) ⟨1, 0, .chunk 0⟩ = 1 ∧
+    (σI2 41).resets = [(⟨1, 0, .chunk 1⟩, 1)] := by decide
+
+/-! `FullStageReset` mode: the same stage graph; mrp is killed while node 1 is Running; every object
+of node 1 may be wiped (here: the finished chunk 0, the dead chunk 1 and the split), node 0's
+finished work may not. -/
+def hF2 : List Ev :=
+  hPre ++ [.crash, .killed ⟨1, 0, .chunk 1⟩, .restart, .reset ⟨1, 0, .chunk 0⟩, .reset ⟨1, 0, .chunk 1⟩,
+    .reset ⟨1, 0, .split⟩, .mkchunks 1 0 0]
+def sF2 : State := prefixState (initFull g2c) hF2 hF2.length
+
+example : (match replay (initFull g2c) hF2 with | .ok _ => true | .error _ => false) = true := by decide
+/-- hypotheses and conclusions of `fullreset_only_wiped_nodes` / `fullreset_restart_completes` at
+this reachable `ReachFull` state: node 1 is to be wiped, node 0 is not; no failure marker; no
+dead job left; mrp is up; and the wiped fork is `ready` again -/
+example : sF2.wipedAtLoad = [1] ∧ enabled sF2 (.reset ⟨0, 0, .chunk 0⟩) = false ∧
+    enabled sF2 (.reset ⟨1, 0, .join⟩) = true ∧ sF2.phase ≠ .crashed ∧
+    forkState sF2 1 0 = .ready := by decide
+example : AliveInv sF2 := aliveInv_of_check (by decide)
 
 end Props.C05
